@@ -2,8 +2,8 @@ package rules
 
 import (
 	"fmt"
-	"os"
 	"go/types"
+	"os"
 	"regexp"
 	"sort"
 	"strings"
@@ -103,16 +103,16 @@ type contract struct {
 }
 
 var contracts = map[string][]contract{
-	"dig.newParamList":                      {{"ctype", "type", []string{"Func"}}},
-	"dig.newResultList":                     {{"ctype", "type", []string{"Func"}}},
-	"dig.newParamObject":                    {{"t", "type", []string{"Struct"}}},
-	"dig.newResultObject":                   {{"t", "type", []string{"Struct"}}},
-	"dig.newConstructorNode":                {{"ctor", "dyn", []string{"Func"}}},
-	"dig.newDecoratorNode":                  {{"dcor", "dyn", []string{"Func"}}},
-	"(*dig.Scope).provide":                  {{"ctor", "dyn", []string{"Func"}}},
-	"dig/internal/digreflect.InspectFunc":   {{"function", "dyn", []string{"Func"}}},
-	"dig.dryInvoker":                        {{"fn", "value", []string{"Func"}}},
-	"dig.defaultInvoker":                    {{"fn", "value", []string{"Func"}}},
+	"dig.newParamList":                    {{"ctype", "type", []string{"Func"}}},
+	"dig.newResultList":                   {{"ctype", "type", []string{"Func"}}},
+	"dig.newParamObject":                  {{"t", "type", []string{"Struct"}}},
+	"dig.newResultObject":                 {{"t", "type", []string{"Struct"}}},
+	"dig.newConstructorNode":              {{"ctor", "dyn", []string{"Func"}}},
+	"dig.newDecoratorNode":                {{"dcor", "dyn", []string{"Func"}}},
+	"(*dig.Scope).provide":                {{"ctor", "dyn", []string{"Func"}}},
+	"dig/internal/digreflect.InspectFunc": {{"function", "dyn", []string{"Func"}}},
+	"dig.dryInvoker":                      {{"fn", "value", []string{"Func"}}},
+	"dig.defaultInvoker":                  {{"fn", "value", []string{"Func"}}},
 }
 
 // field invariants of IR types: the Type field's kind.
